@@ -17,7 +17,8 @@ AnyScenario == {[T |-> 1, maxnow |-> 0, strategy |-> "long", n |-> 1, msgs |-> <
 Match(p) == /\ st'.running = p.running /\ st'.stopping = p.stopping /\ st'.suspended = p.suspended
             /\ st'.pflag = p.pflag /\ st'.skip = p.skip /\ st'.passivating = p.passivating
             /\ st'.reg = p.reg
-            /\ (st'.reg => (st'.inHeap = p.inHeap /\ st'.epaused = p.epaused /\ st'.pending = p.pending /\ st'.enqueued = p.enqueued))
+            /\ (st'.reg => (st'.inHeap = p.inHeap /\ st'.copies = p.copies /\ st'.epaused = p.epaused
+                             /\ st'.pending = p.pending /\ st'.enqueued = p.enqueued))
             /\ (st'.reg /\ TimeS => st'.deadline = p.deadline)
             /\ (st'.reg /\ CountS => st'.base = p.base)
             /\ st'.lastAct = p.lastAct
